@@ -15,9 +15,26 @@
   * `C06_prob_one`        : a first transition with probability 1.0 is taken on every outcome;
   * `C06_no_vector`       : an event without a vector leaves the machine where it is and draws
                             nothing.
+
+  Framework level (`Proofs/MonitorAcceptA.lean`; `C06.fwMonitor` reads the hooked log: one fresh draw
+  per transition lookup and the target the declared probabilities assign to it):
+  * `C06_log_fresh_draws` : for EVERY machine set, configuration, oracle and history (faulting or
+                            not), every log of the model's own trace (`LL.modelTrace`, as the driver
+                            records it) passes `checkDraws`: each lookup whose state declares a list
+                            for the event — top level, CounterZero inside `update_counter`,
+                            LimitReached inside a limit decrement, Signal — is directly followed by a
+                            draw of its own, and by the sampling entry exactly when `sampleState` of
+                            that list and that draw selects a target; no other draw or sampling exists;
+  * `C06_monitor_accepts_model` : hence `C06.fwMonitor` returns `none` on the model's trace, under
+                            the one hypothesis that the oracle's uniform draws are among the `2^23`
+                            values `k/2^23` (`C06_drawInRange_iff`: the monitor's range predicate is
+                            exactly `∃ k < N, draw k`; what `C06_draw01` shows for rand's conversion; the model
+                            quantifies over arbitrary oracles, and `C06_monitor_rejects_bad_draw` is a
+                            kernel-checked trace with the draw 1.0 that the monitor rejects).
 -/
 import MbVerif.Proofs.SampleState
 import MbVerif.Proofs.Validate
+import MbVerif.Proofs.MonitorAcceptA
 
 namespace Mb.C06
 open Mb Mb.Fp
@@ -201,5 +218,135 @@ theorem C06_draw01 (w : UInt32) :
   rw [hm, ha]
   simp only [lt_fin_fin, hv1, decide_true, ↓reduceIte]
   rfl
+
+/-! ### Framework level: the monitor on the model's own trace -/
+
+section FwMonitor
+
+variable {σ : Type} (ρ : Oracle σ)
+
+/-- **One fresh draw per lookup, in the monitor's own terms**, for every machine set (validated or
+    not), configuration, oracle (arbitrary draws, NaN included) and history, faulting or not: the log
+    of the construction and the log of every call of the model's trace pass `checkDraws`. -/
+theorem C06_log_fresh_draws (ms : List Machine) (fp fb : F64) (t0 : Int) (rng : σ) (h : List Call) :
+    checkDraws ms (LL.modelTrace ρ ms fp fb t0 rng h).log0 = none ∧
+    ∀ r ∈ (LL.modelTrace ρ ms fp fb t0 rng h).calls, checkDraws ms r.log = none :=
+  MA.c06_checkDraws_trace ρ ms fp fb t0 rng h
+
+/-- the monitor's range predicate says exactly that the draw is one of the `N = 2^23` outcomes
+    `draw k = k/N`, `k < N`, over which the counting theorems above range -/
+theorem C06_drawInRange_iff (bits : F32) :
+    drawInRange bits = true ↔ ∃ k, k < N ∧ val32 bits = draw k := by
+  unfold drawInRange draw
+  have hN : (0 : ℚ) < (N : ℚ) := N_pos
+  constructor
+  · intro h
+    cases hv : val32 bits with
+    | nan => rw [hv] at h; simp at h
+    | inf s => rw [hv] at h; simp at h
+    | fin q =>
+      rw [hv] at h
+      simp only [Bool.and_eq_true, decide_eq_true_eq] at h
+      obtain ⟨⟨h0, h1⟩, hd⟩ := h
+      have hz : ((q * (N : ℚ)).num : ℚ) = q * (N : ℚ) := by
+        have := Rat.num_div_den (q * (N : ℚ))
+        rw [hd] at this
+        simpa using this
+      have hnn : 0 ≤ (q * (N : ℚ)).num := Rat.num_nonneg.mpr (mul_nonneg h0 hN.le)
+      have hk : (((q * (N : ℚ)).num.toNat : ℕ) : ℚ) = q * (N : ℚ) := by
+        rw [← hz]
+        have : (((q * (N : ℚ)).num.toNat : ℕ) : ℤ) = (q * (N : ℚ)).num := Int.toNat_of_nonneg hnn
+        exact_mod_cast congrArg (fun z : ℤ => (z : ℚ)) this
+      refine ⟨(q * (N : ℚ)).num.toNat, ?_, ?_⟩
+      · have : (((q * (N : ℚ)).num.toNat : ℕ) : ℚ) < (N : ℚ) := by
+          rw [hk]; calc q * (N : ℚ) < 1 * (N : ℚ) := mul_lt_mul_of_pos_right h1 hN
+            _ = (N : ℚ) := one_mul _
+        exact_mod_cast this
+      · rw [hk, mul_div_assoc, div_self hN.ne', mul_one]
+  · rintro ⟨k, hk, hv⟩
+    rw [hv]
+    have hkq : ((k : ℚ)) < (N : ℚ) := by exact_mod_cast hk
+    simp only [Bool.and_eq_true, decide_eq_true_eq]
+    refine ⟨⟨div_nonneg (Nat.cast_nonneg k) hN.le, (div_lt_one hN).mpr hkq⟩, ?_⟩
+    rw [div_mul_cancel₀ _ hN.ne']
+    simp
+
+/-- **The monitor accepts the model.** Hypothesis `hu`: every uniform draw of the oracle is one of
+    the `2^23` values `k/2^23`, `0 ≤ k < 2^23` (`C06_drawInRange_iff`) — the monitor's range rule
+    checks exactly that of every logged draw, the model's oracle is arbitrary, so the hypothesis is
+    needed (`C06_monitor_rejects_bad_draw`); for the implementation it is `C06_draw01`. Nothing else
+    is assumed: any machines, configuration, history. -/
+theorem C06_monitor_accepts_model (hu : ∀ g, drawInRange (ρ.u g).1 = true) (ms : List Machine) (fp fb : F64)
+    (t0 : Int) (rng : σ) (h : List Call) : fwMonitor (LL.modelTrace ρ ms fp fb t0 rng h) = none :=
+  MA.c06_monitor_model ρ hu ms fp fb t0 rng h
+
+/-- transition slots: 13 events, the listed ones with a vector -/
+private def slots (l : List (Nat × List Trans)) : List (Option (List Trans)) :=
+  l.foldl (fun acc p => acc.set p.1 (some p.2)) (List.replicate 13 none)
+/-- state 0: NormalSent leads to state 1 or stays, 1/2 each -/
+private def dSt0 : State :=
+  { action := none, counterA := none, counterB := none,
+    transitions := slots [(3, [{ target := 1, prob := 1056964608 }, { target := 0, prob := 1056964608 }])] }
+/-- state 1: counter A += 1; NormalSent leads to state 2 with probability 1 -/
+private def dSt1 : State :=
+  { action := none, counterA := some { operation := .increment, dist := none, copy := false }, counterB := none,
+    transitions := slots [(3, [{ target := 2, prob := 1065353216 }])] }
+/-- state 2: counter A -= 1 (so CounterZero fires on entry); CounterZero leads to state 0 with
+    probability 1/2 -/
+private def dSt2 : State :=
+  { action := none, counterA := some { operation := .decrement, dist := none, copy := false }, counterB := none,
+    transitions := slots [(9, [{ target := 0, prob := 1056964608 }])] }
+private def dM : Machine :=
+  { allowedPaddingPackets := 0, maxPaddingFrac := 0, allowedBlockedMicrosec := 0, maxBlockingFrac := 0,
+    states := [dSt0, dSt1, dSt2] }
+/-- draws 0, 0.75, 0, 0, 0.75, 0, … -/
+private def dρ : Oracle Nat :=
+  { u := fun g => (if g % 3 = 1 then 1061158912 else 0, g + 1), d := fun _ g => (0, g) }
+private def dTrace (g : Nat) : FwTrace :=
+  LL.modelTrace dρ [dM] 0 0 0 g [([.normalSent], 10), ([.normalSent, .paddingRecv], 20)]
+
+/-- the demo oracle satisfies the hypothesis of `C06_monitor_accepts_model` -/
+example : ∀ g, drawInRange (dρ.u g).1 = true := by
+  intro g
+  show drawInRange (if g % 3 = 1 then 1061158912 else 0) = true
+  split <;> decide +kernel
+
+/-- Non-vacuity of `C06_monitor_accepts_model`: no call faults; in the second call the transition
+    into state 2 zeroes counter A and the CounterZero lookup (event 9) inside `update_counter` makes a
+    draw of its own — 0, selecting target 0, from random state 0; 0.75, selecting nothing, from random
+    state 2 — and PaddingRecv (event 1) is looked up without a list; the monitor accepts both traces. -/
+example : (dTrace 0).calls.map (·.res) = [.ok, .ok] ∧
+    (dTrace 0).calls.map (·.log) =
+      [[.trans 0 3 0, .draw 0, .sampled 0 3 1, .limit 0 18446744073709551615 false, .counter 0 0 1 0 0],
+       [.trans 0 3 1, .draw 1061158912, .sampled 0 3 2, .limit 0 18446744073709551615 false, .counter 0 1 0 0 0,
+        .trans 0 9 2, .draw 0, .sampled 0 9 0, .limit 0 18446744073709551615 false, .counter 0 0 0 0 0,
+        .trans 0 1 0]] ∧
+    ((dTrace 2).calls.map (·.log))[1]? =
+      some [.trans 0 3 1, .draw 0, .sampled 0 3 2, .limit 0 18446744073709551615 false, .counter 0 1 0 0 0,
+        .trans 0 9 2, .draw 1061158912, .trans 0 1 2] ∧
+    fwMonitor (dTrace 0) = none ∧ fwMonitor (dTrace 2) = none := by decide +kernel
+
+/-- Non-vacuity of the rules of `checkDraws`: the CounterZero lookup re-using the outer draw (the
+    shape of the seeded change C06-g), a target other than the one the draw selects, a target taken
+    although the draw selects none, no transition although the draw selects one, a draw for a lookup
+    without a list and a stray draw are all rejected. -/
+example :
+    (checkDraws [dM] [.trans 0 3 1, .draw 0, .sampled 0 3 2, .limit 0 18446744073709551615 false, .counter 0 1 0 0 0,
+        .trans 0 9 2, .sampled 0 9 0]).isSome = true ∧
+    (checkDraws [dM] [.trans 0 3 0, .draw 0, .sampled 0 3 0]).isSome = true ∧
+    (checkDraws [dM] [.trans 0 9 2, .draw 1061158912, .sampled 0 9 0]).isSome = true ∧
+    (checkDraws [dM] [.trans 0 3 0, .draw 0, .counter 0 0 0 0 0]).isSome = true ∧
+    (checkDraws [dM] [.trans 0 1 0, .draw 0]).isSome = true ∧
+    (checkDraws [dM] [.draw 0]).isSome = true := by decide +kernel
+
+/-- The hypothesis of `C06_monitor_accepts_model` cannot be dropped: with an oracle that returns the
+    draw 1.0 (not of the form `k/2^23` with `k < 2^23`) the model's trace passes the rule on draws and
+    samplings but is rejected by the monitor's range rule. -/
+theorem C06_monitor_rejects_bad_draw :
+    (fwMonitor (LL.modelTrace ({ u := fun g => (1065353216, g), d := fun _ g => (0, g) } : Oracle Unit)
+      [dM] 0 0 0 () [([.normalSent], 10)])).isSome = true ∧
+    drawInRange 1065353216 = false := by decide +kernel
+
+end FwMonitor
 
 end Mb.C06
